@@ -8,6 +8,12 @@ CHECKS = {
          "samples programmes/knobs/schedules; no injected faults; write errors that kevo itself reports count as no-effect"),
  "C02": ("fault_enumeration", "4 (C02)", "every state-changing I/O point of a generated run is a crash point: stop before / after / torn at up to 5 offsets, under process-death and (with synchronous logging) power-loss images; the reopened state must equal a prefix state within [acknowledged, issued]; plus sampled multi-crash cycles and clean close",
          "enumeration is complete per generated programme (all I/O points), programmes are sampled; POWER-DATA model treats directory operations as durable and exempts MANIFEST"),
+ "C04": ("exploration", "4 (C04)", "2-6 client tasks run read-only and read-write transactions (gets, scans, puts, deletes, commit or rollback) on 4 keys under conc/dense seeded scheduling; one porcupine operation per transaction against a serial map model (reads replayed against state plus own writes, write set applied if committed)",
+         "histories of at most 15 transactions; porcupine time-outs are counted inconclusive; writes outside transactions are excluded as the property excludes them"),
+ "C06": ("exploration", "4 (C06)", "2-8 client tasks put (unique values), get and delete on 1-4 keys while flush, log rotation and compaction run under the seeded scheduler with injected stalls; invoke/return stamped with a global event counter; final reads, also after a restart, appended; porcupine checks one register per key; a failed write has no effect in the model",
+         "at most ~55 operations per key; porcupine time-outs are counted inconclusive, never reported"),
+ "C17": ("exploration", "4 (C17)", "client tasks begin/operate/commit/rollback/finish twice/use after finish/abandon on the engine and through the registry by handle; registry sweeps, idle and lifetime expiry, connection clean-up, graceful shutdown and the 10 s begin time-out run on virtual time with think times that make begins time out; later finishes must return the closed error without side effect and, once all clients are done, a fresh read-write transaction must begin within a bounded (unstalled) virtual time",
+         "liveness bound: 90 s + idle limit of virtual time not counting injected stalls (15 s after a graceful shutdown); a client never asks for a second transaction while it holds one"),
  "C05": ("exploration", "4 (C05)", "programmes that spread versions and deletion markers over active/immutable memtables and SSTables (log files retired so that after a reopen the tables are the only copy) with scan probes on the engine and inside transactions: full/range/prefix/suffix/limit scans, Seek and SeekToLast (also inside range iterators) against the sorted reference map; plus a scanner task against concurrent writers of other keys with flush/compaction",
          "probe targets are sampled; concurrent non-transactional scans are judged only on ordering, duplicates, untouched keys and fabricated values"),
  "C12": ("exploration", "4 (C12)", "programmes with settle points (everything flushed, log files retired) followed by triggered, range and automatic compactions, reopens and compactions in which the process is killed at a chosen I/O point; the newest-wins merged view of the table files (read by harness-side sstable readers) and the engine's reads live and after reopen are compared with the reference map; every table must be sorted and duplicate-free",
